@@ -130,6 +130,15 @@ def oracle(prop, run):
     obs, world, case = run["obs"], run["world"], run["case"]
     mon, tasks, rows = obs["mon"], obs["tasks"], obs["rows"]
     flags = world["flags"]
+    # whether a task is the join (terminal) of a conditional / a conditional is what the workload DESCRIPTION says,
+    # not what the loaded objects claim
+    desc_flags = {(g["name"], n["name"]): (bool(n.get("terminal", False)), bool(n.get("conditional", False))) for g in world["workload"]["graphs"] for n in g["graph"]}
+    tasks = {lab: dict(t) for lab, t in tasks.items()}
+    for lab, t in tasks.items():
+        key = (str(t["graph"]).split("@")[0], t["name"])
+        if key in desc_flags:
+            t["loaded_terminal"], t["loaded_conditional"] = t["terminal"], t["conditional"]
+            t["terminal"], t["conditional"] = desc_flags[key]
     variance = flags["runtime_variance"]
     zero_rt = any(s["runtime"] == 0 for p in world["workload"]["profiles"] for s in p["execution_strategies"])
     starts, finishes = {}, {}
